@@ -28,11 +28,12 @@ from vlib.runner import register_chemicals
 PROPERTY = 'C07'
 RULE = ('Five generated families. db: one of 34 database chemicals with complete Cn/Tm/Tb/Hvap/Hfus data x '
         'phase_ref in {s,l,g} (Chemical(name, phase_ref=..)) or phase-locked (Chemical(name, phase=..) or at_state(.., copy=True)), an evaluated '
-        'phase, one clause (reference state / T-difference vs quad of Cn / central difference / pressure term / jump at Tb / '
+        'phase, optionally (1 in 5) built fresh and given the Cn / Hvap / other models of a second database chemical with '
+        'copy_models_from, one clause (reference state / T-difference vs quad of Cn / central difference / pressure term / jump at Tb / '
         'jump at Tm), T inside the Cn model range of that phase, P = 10**u Pa, u in [3,7]. syn: Chemical.blank + add_model with '
         'random positive Cn_s/Cn_l/Cn_g of the forms const, a+bT, a+bT+cT^2, a+d/T (with or without analytic integrals), '
         'random Tm, Tb on either side of T_ref (Tb<Tm allowed), Hvap(T)=A-BT, Hfus, Sfus=Hfus/Tm, S0, every phase_ref incl. '
-        'automatic, built directly or through the phase_ref/S0/Tb setters, phase-locked at construction or later with at_state; H and S at a random (phase,T,P), at the '
+        'automatic, built directly or through the phase_ref/S0/Tb setters, phase-locked at construction or later with at_state, or adopting the Cn/Hvap models of a second synthetic chemical with copy_models_from; H and S at a random (phase,T,P), at the '
         'reference state and on both sides of Tb/Tm are compared with closed-form path integrals. mixH / mixS: IdealMixture over '
         '1-5 database or synthetic chemicals with independent reference phases/locks (mixS: 80% of cases with all database '
         'chemicals on one side of the melting point, outside finding C07-F1), phase in s,l,g,L,S, amounts 0 or 10**u with u in [-9,4] (optionally one present component forced to 1e-9..1e-6), '
@@ -53,7 +54,9 @@ REQUIRED_CELLS = {'quick': ['db:ref', 'db:dT', 'db:deriv', 'db:dP', 'db:jump_vap
                             'db:ref=s', 'db:ref=l', 'db:ref=g', 'syn:ref=s', 'syn:ref=l', 'syn:ref=g', 'syn:locked',
                             'syn:Tb<Tm', 'mix:n>=2', 'mix:n=1', 'mix:multi', 'stream:distinct', 'stream:same',
                             'stream:kind=M', 'syn:mode=at_state', 'syn:mode=ref_setter', 'syn:mode=S0_setter',
-                            'syn:mode=Tb_setter', 'db:lock.how=at', 'db:lock.how=lock', 'mix:tiny_all', 'mix:tiny_some',
+                            'syn:mode=Tb_setter', 'syn:mode=copy_models', 'db:copy_models=Cn', 'db:copy_models=Hvap',
+                            'db:copy_models=Cn+Hvap', 'db:copy_models=other', 'syn:copy_models=Cn', 'syn:copy_models=Hvap',
+                            'db:lock.how=at', 'db:lock.how=lock', 'mix:tiny_all', 'mix:tiny_some',
                             'mix:large', 'mix:excess=0', 'mix:excess=1', 'mix:excess>0.1%'],
                   'thorough': []}
 
@@ -148,16 +151,28 @@ def s_resolution(c, ph, Ts):
 
 
 def has_vap(c):
-    """Complete vaporisation data: Hvap(Tb) exists (not so for Glucose, whose Tb exceeds Tc)."""
-    key = ('has_vap', id(c))
-    v = _db_cache.get(key)
-    if v is None:
-        try:
-            v = bool(c.Tb) and c.Hvap(c.Tb) is not None
-        except Exception:
-            v = False
-        _db_cache[key] = v
-    return v
+    """Complete vaporisation data: Hvap(Tb) exists (not so for Glucose, whose Tb exceeds Tc, or when a model adopted
+    with copy_models_from cannot be evaluated at this chemical's Tb)."""
+    try:
+        # Hvap(Tb) == 0 (an adopted Hvap model evaluated above its own critical temperature) is not vaporisation
+        # data either; the library then treats it as missing for S only (`Svap_Tb = ... if Hvap_Tb else None`)
+        return bool(c.Tb) and bool(c.Hvap) and (c.Hvap(c.Tb) or 0.0) > 0.0
+    except Exception:
+        return False
+
+
+CMF_NAMES = (['Cn'], ['Hvap'], ['Cn', 'Hvap'], ['Hvap', 'Cn', 'V'], ['Cn', 'mu'], ['Hvap', 'Psat'], ['V', 'mu'], ['kappa'])
+
+
+def fresh_with_models_from(ctx, name, variant, donor, names, region):
+    """A NEW chemical (cached ones are never mutated) that adopts the named models of `donor` through the public
+    Chemical.copy_models_from; its H/S must afterwards be consistent with its own *current* Cn and Hvap."""
+    if variant.startswith('lock:'):
+        c = tmo.Chemical(name, phase=variant[5:])
+    else:
+        c = tmo.Chemical(name, phase_ref=variant)
+    ctx.call('copy_models_from', c.copy_models_from, donor, list(names), region=region)
+    return c
 
 
 def crosses_melting(pr, ph, locked):
@@ -196,10 +211,26 @@ DB_CLAUSES = ('ref', 'dT', 'dT', 'deriv', 'deriv', 'dP', 'jump_vap', 'jump_fus')
 def prop_db(ch, ctx):
     name = ch.choice('name', DB_NAMES)
     locked = ch.int('locked', 0, 3) == 0
+    # build mode: adopt models of another chemical with copy_models_from (on a fresh object)
+    cmf = ch.int('copy_models', 0, 4) == 4
+    cmf_tag = ''
+    if cmf:
+        dname = ch.choice('donor', DB_NAMES)
+        dvar = ch.choice('donor.variant', ('default', 'default', 's', 'g', 'lock:l', 'lock:g', 'lock:s'))
+        cmf_names = ch.choice('copy.names', CMF_NAMES)
+        donor = ctx.call('build', db_chemical, dname, dvar, region='src=db,donor')
+        energy = [n for n in cmf_names if n in ('Cn', 'Hvap')]
+        cmf_tag = ',cmf=' + ('+'.join(sorted(energy)) or 'other')
+        cmf_rg = f'src=db,lock={int(locked)},donorlock={int(is_locked(donor))},names={"+".join(sorted(energy)) or "other"}'
+        ctx.cell('db:copy_models=' + ('+'.join(sorted(energy)) or 'other'))
     if locked:
         ph = ch.choice('phase', PHASES)
         how = ch.choice('lock.how', ('lock:', 'lock:', 'at:'))     # constructor phase=..  or  at_state(.., copy=True)
-        c = ctx.call('build', db_chemical, name, how + ph, region=f'src=db,lock=1,ph={ph},how={how[:-1]}')
+        if cmf:
+            how = 'lock:'
+            c = fresh_with_models_from(ctx, name, how + ph, donor, cmf_names, cmf_rg)
+        else:
+            c = ctx.call('build', db_chemical, name, how + ph, region=f'src=db,lock=1,ph={ph},how={how[:-1]}')
         if c.locked_state != ph or c.phase_ref != ph:
             ctx.fail(f'build|src=db,lock=1,ph={ph},how={how[:-1]}|not-locked', f'{name}: locked_state={c.locked_state} phase_ref={c.phase_ref}')
         ctx.cell('db:lock.how=' + how[:-1])
@@ -207,7 +238,10 @@ def prop_db(ch, ctx):
         clause = ch.choice('clause', ('ref', 'dT', 'deriv', 'dP'))
     else:
         prq = ch.choice('phase_ref', PHASES)
-        c = ctx.call('build', db_chemical, name, prq, region=f'src=db,lock=0,ref={prq}')
+        if cmf:
+            c = fresh_with_models_from(ctx, name, prq, donor, cmf_names, cmf_rg)
+        else:
+            c = ctx.call('build', db_chemical, name, prq, region=f'src=db,lock=0,ref={prq}')
         pr = c.phase_ref
         if pr != prq:
             ctx.fail(f'build|src=db,lock=0,ref={prq}|phase_ref-ignored', f'{name}: asked {prq} got {pr}')
@@ -222,7 +256,12 @@ def prop_db(ch, ctx):
     if locked: ctx.cell('db:locked')
 
     def region(ph_tag, xm):
-        return f'src=db,ref={pr},ph={ph_tag},xm={xm},lock={int(locked)}'
+        return f'src=db,ref={pr},ph={ph_tag},xm={xm},lock={int(locked)}' + cmf_tag
+
+    def f3_region(rg, kind):
+        # finding C07-F3 (dependency precision) is the same root cause whatever the build mode: its signature
+        # carries no build-mode tag
+        return rg[:len(rg) - len(cmf_tag)] if (kind == 'precision' and cmf_tag) else rg
 
     if clause == 'ref':
         rg = region(pr, 0)
@@ -331,7 +370,7 @@ def prop_db(ch, ctx):
         tolS = S_RTOL.get(m.method, DT_RTOL) * scS + 10 * eS
         if errS > tolS:
             kind = 'precision' if errS <= tolS + 8 * res else 'mismatch'
-            ctx.fail(f'S.dT|{rg},hp={int(res > 0)}|{kind}',
+            ctx.fail(f'S.dT|{f3_region(rg, kind)},hp={int(res > 0)}|{kind}',
                      f'{name} ref={pr} {ph}: S({T2})-S({T1}) = {s2 - s1!r}, quad(Cn/T) = {IS * sgn!r} '
                      f'({m.method}, grid spacing of the S integral {res!r})')
         return
@@ -369,7 +408,7 @@ def prop_db(ch, ctx):
         if not res: ctx.metric_max('deriv:S_rel:' + m.method, max(0.0, errS * T - var) / abs(cn))
         if errS > tolS:
             kind = 'precision' if errS <= tolS + 8 * res / h else 'mismatch'
-            ctx.fail(f'S.deriv|{rg},hp={int(res > 0)}|{kind}',
+            ctx.fail(f'S.deriv|{f3_region(rg, kind)},hp={int(res > 0)}|{kind}',
                      f'{name} ref={pr} {ph}: dS/dT at {T} = {dS!r}, Cn/T = {cn / T!r} '
                      f'({m.method}, grid spacing of the S integral {res!r})')
         return
@@ -450,7 +489,7 @@ def draw_syn(ch, tag='syn', allow_lock=True, allow_modes=True):
         for p in PHASES:
             kinds[p], forms[p] = draw_cn(ch, tag + '.Cn_' + p)
         pr_req = ch.choice(tag + '.phase_ref', ('s', 'l', 'g', None))
-        mode = ch.choice(tag + '.mode', ('ctor', 'ctor', 'ref_setter', 'S0_setter', 'Tb_setter', 'at_state')) if allow_modes else 'ctor'
+        mode = ch.choice(tag + '.mode', ('ctor', 'ctor', 'ref_setter', 'S0_setter', 'Tb_setter', 'at_state', 'copy_models')) if allow_modes else 'ctor'
     spec = dict(Tm=Tm, Tb=Tb, Hfus=Hfus, Sfus=Hfus / Tm, S0=S0, A=A, B=B, lock=lock, how=how, kinds=kinds,
                 forms=forms, pr_req=pr_req, mode=mode)
     if mode == 'ref_setter':
@@ -461,6 +500,15 @@ def draw_syn(ch, tag='syn', allow_lock=True, allow_modes=True):
         spec['S0_first'] = ch.float(tag + '.S0_0', 0.0, 600.0)
     if mode == 'at_state':
         spec['lock_later'] = ch.choice(tag + '.at_state', PHASES)
+    if mode == 'copy_models':
+        # a donor with other Cn forms and another Hvap; the target adopts the named models with copy_models_from
+        spec['copy_names'] = ch.choice(tag + '.copy.names', CMF_NAMES)
+        dk, df = {}, {}
+        for p in PHASES:
+            dk[p], df[p] = draw_cn(ch, tag + '.donor.Cn_' + p)
+        spec['donor_kinds'], spec['donor_forms'] = dk, df
+        spec['donor_A'] = ch.float(tag + '.donor.HvapA', 5e3, 9e4)
+        spec['donor_B'] = ch.float(tag + '.donor.HvapBf', 0.0, 1.0) * spec['donor_A'] / (2.0 * Tb)
     return spec
 
 
@@ -489,6 +537,16 @@ def build_syn(spec, ID='Syn'):
         c.Tb = Tb
     elif mode == 'S0_setter':
         c.S0 = S0
+    elif mode == 'copy_models':
+        dspec = dict(spec, kinds=spec['donor_kinds'], forms=spec['donor_forms'], A=spec['donor_A'], B=spec['donor_B'],
+                     mode='ctor', pr_req=None)
+        donor = build_syn(dspec, ID + 'donor')
+        c.copy_models_from(donor, list(spec['copy_names']))
+        # the reference model follows the chemical's CURRENT models
+        if 'Cn' in spec['copy_names']:
+            spec['forms'], spec['kinds'] = spec['donor_forms'], spec['donor_kinds']
+        if 'Hvap' in spec['copy_names']:
+            spec['A'], spec['B'] = spec['donor_A'], spec['donor_B']
     elif mode == 'at_state':
         c.at_state(spec['lock_later'])       # locks in place; the reference phase becomes the locked phase
         spec['lock'] = spec['lock_later']
@@ -547,6 +605,8 @@ def prop_syn(ch, ctx):
     if lock and pr != lock:
         ctx.fail(f'build|{rg0}|phase_ref-ignored', f'locked {lock} but phase_ref {pr}')
     ctx.cell('syn:ref=' + str(pr)); ctx.cell('syn:mode=' + spec['mode']); ctx.cell('syn:how=' + spec['how'])
+    if spec['mode'] == 'copy_models':
+        ctx.cell('syn:copy_models=' + ('+'.join(sorted(n for n in spec['copy_names'] if n in ('Cn', 'Hvap'))) or 'other'))
     if lock: ctx.cell('syn:locked')
     if spec['Tb'] < spec['Tm']: ctx.cell('syn:Tb<Tm')
     if (spec['Tm'] < T_REF) != (spec['Tb'] < T_REF): ctx.cell('syn:Tm<Tref<Tb' if spec['Tm'] < T_REF else 'syn:Tb<Tref<Tm')
